@@ -215,32 +215,50 @@ func TestC05(t *testing.T) {
 			}
 		}
 	})
-	if vf.Thorough() && *vf.Shard == 0 {
+	if *vf.Shard == 0 && !r.Failed() {
 		scalingC05(t, r)
 	}
 }
 
-// scalingC05 is the metamorphic scaling relation of the thorough tier: a
-// frame with 16n list elements must not take more than 64x the time of n
-// elements (a quadratic decoder gives about 256x). Timing is min-of-7 and a
-// breach must repeat three times in a row; time is otherwise never a verdict.
+// scalingC05 is the metamorphic scaling relation: a frame with 32n list
+// elements must not cost more than 200x the CPU time of n elements (a linear
+// decoder gives about 32x, measured 20..70x under load; a quadratic one about 1000x). The meter is the CPU
+// time of the calling OS thread (getrusage RUSAGE_THREAD), which does not
+// include time spent waiting for a loaded machine; each timing is the
+// minimum of 7 runs and a breach must repeat three times in a row.
 func scalingC05(t *testing.T, r *vf.Rec) {
-	mk := func(typ uint8, n int) []byte {
-		m := model.New(typ)
+	runtime.LockOSThread()
+	defer runtime.UnlockOSThread()
+	mk := func(kind string, n int) []byte {
+		m := model.New(model.PUBLISH)
 		m.PacketID = 1
 		for i := 0; i < n; i++ {
-			switch typ {
-			case model.SUBSCRIBE:
-				m.Filters = append(m.Filters, model.Filter{Filter: "a", Opts: 1})
-			case model.UNSUBSCRIBE:
-				m.UnsubFilters = append(m.UnsubFilters, "a")
-			case model.SUBACK:
-				m.ReasonCodes = append(m.ReasonCodes, 1)
-			case model.PUBLISH:
+			switch kind {
+			case "SUBSCRIBE/filters":
+				m.Type = model.SUBSCRIBE
+				m.Filters = append(m.Filters, model.Filter{Filter: fmt.Sprintf("t/%d", i), Opts: 1})
+			case "UNSUBSCRIBE/filters":
+				m.Type = model.UNSUBSCRIBE
+				m.UnsubFilters = append(m.UnsubFilters, fmt.Sprintf("t/%d", i))
+			case "SUBACK/reason-codes":
+				m.Type = model.SUBACK
+				m.ReasonCodes = append(m.ReasonCodes, uint8(i))
+			case "PUBLISH/subscription-ids":
 				m.TopicName = "t"
-				m.SubIDs = append(m.SubIDs, 5)
-			case model.CONNACK:
-				m.UserProps = append(m.UserProps, model.KV{K: "k", V: "v"})
+				m.SubIDs = append(m.SubIDs, uint32(i+1)) // distinct values
+			case "PUBLISH/user-properties":
+				m.TopicName = "t"
+				m.UserProps = append(m.UserProps, model.KV{K: fmt.Sprintf("k%d", i), V: "v"})
+			case "CONNACK/user-properties":
+				m.Type = model.CONNACK
+				m.UserProps = append(m.UserProps, model.KV{K: fmt.Sprintf("k%d", i), V: "v"})
+			case "CONNECT/will-user-properties":
+				m.Type = model.CONNECT
+				m.ProtocolName, m.ProtocolVersion = "MQTT", 5
+				if m.Will == nil {
+					m.Will = &model.Will{Topic: "w"}
+				}
+				m.Will.UserProps = append(m.Will.UserProps, model.KV{K: fmt.Sprintf("k%d", i), V: "v"})
 			}
 		}
 		m.Normalize()
@@ -249,32 +267,36 @@ func scalingC05(t *testing.T, r *vf.Rec) {
 	timeOf := func(frame []byte) float64 {
 		best := 1e18
 		for i := 0; i < 7; i++ {
-			st := nowNanos()
+			st := threadCPUNanos()
 			_, _ = mqRead(frame)
-			if d := float64(nowNanos() - st); d < best {
+			if d := float64(threadCPUNanos() - st); d < best {
 				best = d
 			}
 		}
+		if best < 1000 {
+			best = 1000 // clock granularity
+		}
 		return best
 	}
-	for _, typ := range []uint8{model.SUBSCRIBE, model.UNSUBSCRIBE, model.SUBACK, model.PUBLISH, model.CONNACK} {
-		small, big := mk(typ, 1000), mk(typ, 16000)
+	for _, kind := range []string{"SUBSCRIBE/filters", "UNSUBSCRIBE/filters", "SUBACK/reason-codes", "PUBLISH/subscription-ids", "PUBLISH/user-properties", "CONNACK/user-properties", "CONNECT/will-user-properties"} {
+		small, big := mk(kind, 1000), mk(kind, 32000)
 		breaches := 0
 		var ratio float64
 		for try := 0; try < 3; try++ {
 			ratio = timeOf(big) / timeOf(small)
-			if ratio > 64 {
+			if ratio > 200 {
 				breaches++
 			} else {
 				break
 			}
 		}
-		r.Case(vf.FPs("scaling", typeName(typ)), true, "scaling/"+typeName(typ), func() interface{} {
-			return map[string]interface{}{"type": typeName(typ), "elements": []int{1000, 16000}, "time_ratio": ratio}
+		r.Case(vf.FPs("scaling", kind), true, "scaling/"+kind, func() interface{} {
+			return map[string]interface{}{"list": kind, "elements": []int{1000, 32000}, "cpu_time_ratio": ratio}
 		})
+		r.Note("scaling %s: 32000 vs 1000 elements cost %.1fx the CPU time (limit 200x)", kind, ratio)
 		if breaches == 3 {
-			r.Fail("scaling", caseFrame{Frame: small, Entry: "ReadPacket", Note: "scaling 1000 vs 16000 elements"}, "superlinear:"+typeName(typ),
-				"decoding %s with 16x the list elements took %.0fx the time (three times in a row); expected about 16x", typeName(typ), ratio)
+			r.Fail("scaling", caseFrame{Frame: small, Entry: "scaling:" + kind, Note: "1000 vs 32000 elements"}, "superlinear:"+kind,
+				"decoding %s with 32x the list elements took %.0fx the CPU time (three times in a row, min of 7 runs each); a decoder doing work proportional to the frame takes about 32x, a quadratic one about 1000x", kind, ratio)
 		}
 	}
 }
